@@ -11,6 +11,7 @@ import (
 	"fmt"
 	"io"
 	"log"
+	"os"
 	"runtime/debug"
 	"sort"
 	"strings"
@@ -607,6 +608,14 @@ func execC11(t *testing.T, raw json.RawMessage) *sim.Outcome {
 		})
 	})
 	s.Run()
+	if os.Getenv("VERIF_DEBUG_TASKS") != "" {
+		for _, tk := range s.Tasks() {
+			bl, on := tk.IsBlocked()
+			if !tk.IsDone() {
+				fmt.Fprintf(os.Stderr, "task %s daemon=%v done=%v blocked=%v on=%v wire=%v\n", tk.Name, tk.Daemon, tk.IsDone(), bl, on, p.Wire)
+			}
+		}
+	}
 	o.Interleaving = s.OrderHash()
 	if s.Aborted() {
 		what := "deadlock"
